@@ -16,7 +16,7 @@ import (
 func init() { Registry["C14"] = checkC14 }
 
 func checkC14(p *core.Prog, r *core.Report) {
-	r.Explanation = "Decides structural necessary conditions of lossless codecs by extracting the byte layout of every straight-line codec function from SSA (constant-bound loops expanded): (R1) every Encode of package protocol writes all 64 positions; (R2) for each of the 20 Encode/Decode pairs every field byte that Decode reads from position p is the byte Encode writes at p (little-endian multi-byte fields, widening before shifting), string fields are read from the region they are written to; (R3) LockCommand and LockResultCommand match the offsets documented in README.md; (R4) every hand-inlined decoder of lock frames in server/ and client/ (functions storing LockCommand fields from a byte buffer) agrees with LockCommand.Decode on every arm, and the inlined result encoder of BinaryServerProtocol agrees with LockResultCommand.Encode; (R5) every RESULT_* code indexes inside ERROR_MSG (every result code has a text rendering); (R7) the text forms COUNT n / RCOUNT n reach the wire as n-1 and results render Count+1 / Rcount+1. (R8) the text parser's in-argument cursor is only reset, accumulated or set to the argument length (a necessary condition of chunking independence; found a real defect, repaired). (R9) the key/id normaliser defines all 16 bytes of its destination on every path (short arguments left-padded with zeros even in a recycled command). (R10) line segments of the reply parser can be empty (inclusive end initialised before the start; a real defect was repaired). (R11) every text converter assigns every wire field of its pooled LockCommand on every path. (R12) after an element-count line the text parsers expect an element only under a test of the count (the empty list \"*0\" is complete at once; a real defect was repaired). (R13) after a text converter hands the rest of its argument list to a nested conversion inside its option loop, the loop does not go on over those arguments. NOT decided: the rest of chunking independence, the rest of the Build/Parse round trip, binary-safety of arguments, effect equivalence of text and binary LOCK, key normalisation (MD5/hex paths)."
+	r.Explanation = "Decides structural necessary conditions of lossless codecs by extracting the byte layout of every straight-line codec function from SSA (constant-bound loops expanded): (R1) every Encode of package protocol writes all 64 positions; (R2) for each of the 20 Encode/Decode pairs every field byte that Decode reads from position p is the byte Encode writes at p (little-endian multi-byte fields, widening before shifting), string fields are read from the region they are written to; (R3) LockCommand and LockResultCommand match the offsets documented in README.md; (R4) every hand-inlined decoder of lock frames in server/ and client/ (functions storing LockCommand fields from a byte buffer) agrees with LockCommand.Decode on every arm, and the inlined result encoder of BinaryServerProtocol agrees with LockResultCommand.Encode; (R5) every RESULT_* code indexes inside ERROR_MSG (every result code has a text rendering); (R7) the text forms COUNT n / RCOUNT n reach the wire as n-1 and results render Count+1 / Rcount+1. (R8) the text parser's in-argument cursor is only reset, accumulated or set to the argument length (a necessary condition of chunking independence; found a real defect, repaired). (R9) the key/id normaliser defines all 16 bytes of its destination on every path (short arguments left-padded with zeros even in a recycled command). (R10) line segments of the reply parser can be empty (inclusive end initialised before the start; a real defect was repaired). (R11) every text converter assigns every wire field of its pooled LockCommand on every path. (R12) after an element-count line the text parsers expect an element only under a test of the count (the empty list \"*0\" is complete at once; a real defect was repaired). (R13) after a text converter hands the rest of its argument list to a nested conversion inside its option loop, the loop does not go on over those arguments. (R14) no integer field of the text parsers is assigned from a loop-carried local accumulator (partial tokens live in fields, so a return at the end of a read loses nothing). NOT decided: the rest of chunking independence, the rest of the Build/Parse round trip, binary-safety of arguments, effect equivalence of text and binary LOCK, key normalisation (MD5/hex paths)."
 	r.Assumptions = []string{"Go type checker and go/ssa are correct for /repo", "codec functions are straight-line apart from constant-bound loops (anything else is reported as uninterpreted)"}
 	c14R123(p, r)
 	c14R4(p, r)
@@ -28,6 +28,7 @@ func checkC14(p *core.Prog, r *core.Report) {
 	c14R11(p, r)
 	c14R12(p, r)
 	c14R13(p, r)
+	c14R14(p, r)
 }
 
 // c14R8: the text parser is resumable - it returns in the middle of an argument
@@ -1153,4 +1154,115 @@ func blockReachesAvoiding(from, to, avoid *ssa.BasicBlock) bool {
 		work = append(work, c.Succs...)
 	}
 	return false
+}
+
+// c14R14: the text parsers are resumable: when the read buffer is exhausted in
+// the middle of a token they return and are called again with the next read.
+// Whatever has been gathered so far therefore has to live in the parser's
+// fields; a value accumulated in a local across the bytes of one call (a
+// loop-carried accumulator) is re-initialised by the next call, so the parsed
+// result depends on where the stream was split. Decided on the stores: no
+// store to an integer field of TextParser takes its value from a loop-carried
+// accumulator.
+func c14R14(p *core.Prog, r *core.Report) {
+	const rule = "C14/R14"
+	r.Rule(rule, "text parsers: no integer field of the parser is assigned from a loop-carried local accumulator (partial tokens live in fields, so a return at the end of a read loses nothing)", 10)
+	n := 0
+	for _, fn := range p.FuncsIn("protocol") {
+		if fn.Blocks == nil || recvName(fn) != "TextParser" {
+			continue
+		}
+		isHeader := func(b *ssa.BasicBlock) bool {
+			for _, pred := range b.Preds {
+				if b.Dominates(pred) {
+					return true
+				}
+			}
+			return false
+		}
+		var dependsOn func(v ssa.Value, phi *ssa.Phi, depth int) bool
+		dependsOn = func(v ssa.Value, phi *ssa.Phi, depth int) bool {
+			if depth > 6 {
+				return false
+			}
+			switch x := v.(type) {
+			case *ssa.Phi:
+				if x == phi {
+					return true
+				}
+				for _, e := range x.Edges {
+					if dependsOn(e, phi, depth+1) {
+						return true
+					}
+				}
+			case *ssa.BinOp:
+				return dependsOn(x.X, phi, depth+1) || dependsOn(x.Y, phi, depth+1)
+			case *ssa.Convert:
+				return dependsOn(x.X, phi, depth+1)
+			}
+			return false
+		}
+		var accumulator func(v ssa.Value, depth int) *ssa.Phi
+		accumulator = func(v ssa.Value, depth int) *ssa.Phi {
+			if depth > 4 {
+				return nil
+			}
+			switch x := v.(type) {
+			case *ssa.Phi:
+				if isHeader(x.Block()) {
+					for i, e := range x.Edges {
+						if x.Block().Dominates(x.Block().Preds[i]) && e != ssa.Value(x) && dependsOn(e, x, 0) {
+							return x
+						}
+					}
+				}
+				for _, e := range x.Edges {
+					if e != ssa.Value(x) {
+						if a := accumulator(e, depth+1); a != nil {
+							return a
+						}
+					}
+				}
+			case *ssa.BinOp:
+				if a := accumulator(x.X, depth+1); a != nil {
+					return a
+				}
+				return accumulator(x.Y, depth+1)
+			case *ssa.Convert:
+				return accumulator(x.X, depth+1)
+			}
+			return nil
+		}
+		ord := map[string]int{}
+		for _, b := range fn.Blocks {
+			for _, ins := range b.Instrs {
+				st, ok := ins.(*ssa.Store)
+				if !ok {
+					continue
+				}
+				fa, ok := st.Addr.(*ssa.FieldAddr)
+				if !ok {
+					continue
+				}
+				k := core.FieldKeyOf(fa.X.Type(), fa.Field)
+				if k.Type != "protocol.TextParser" {
+					continue
+				}
+				if bt, ok := st.Val.Type().Underlying().(*types.Basic); !ok || bt.Info()&types.IsInteger == 0 {
+					continue
+				}
+				n++
+				ord[k.Field]++
+				key := fmt.Sprintf("%s: store %s#%d", core.FuncName(fn), k.Field, ord[k.Field])
+				if a := accumulator(st.Val, 0); a != nil {
+					r.Violate(rule, key, p.InstrPos(ins), "the parser field "+k.Field+" is assigned from a local that accumulates across the bytes of one call ("+a.Comment+"): when the read ends in the middle of the token the function returns, the next call starts the local afresh, and the parsed value depends on where the stream was split", nil)
+				} else {
+					r.Hold(rule, key, p.InstrPos(ins), "not a loop-carried accumulator")
+				}
+			}
+		}
+	}
+	if n == 0 {
+		r.Fail("C14/R14: no integer field store found in the text parsers")
+	}
 }
